@@ -48,7 +48,7 @@ def judge(ik, mk, check_trait=False):
     return probs
 
 
-def run_decode(chk, module, theorems, ext, salt, n_quick=32, n_thorough=200):
+def run_decode(chk, module, theorems, ext, salt, n_quick=32, n_thorough=120):
     chk.extract()
     proved = chk.prove(module, theorems)
     if chk.tier == 'thorough' and proved:
